@@ -35,7 +35,7 @@ func genAPIStress(r *rand.Rand, tier string) Case {
 	cfg.DHTEnabled = false
 	cfg.RPCEnabled = false
 	cfg.Host = "127.0.0.1"
-	base := 30000 + r.Intn(25000)
+	base := 2000 + r.Intn(7800) // below the slots of the stepped-loop sessions and the kernel's ephemeral range
 	cfg.PortBegin, cfg.PortEnd = uint16(base), uint16(base+40)
 	cfg.ResumeWriteInterval = 20 * time.Millisecond
 	cfg.TrackerStopTimeout = 100 * time.Millisecond
